@@ -11,6 +11,7 @@ COMMON_TRUSTED = [
 
 # (file under coq/Gen, acra-vh arguments that print it): regenerated from /repo on every run
 GENERATORS = [
+    ("TypedMysqlConsts.v", ["typedmy"]),
     ("KswConsts.v", ["kswconsts"]),
     ("TypedConsts.v", ["typed"]),
     ("AuditLogConsts.v", ["auditlog"]),
@@ -99,21 +100,27 @@ PROPS = {
             },
             {
                 "name": "c19my",
-                "run_vo": "Model/RunTyped.vo",
-                "n_quick": 200,
-                "n_thorough": 2000,
-                "model": False
+                "run_vo": "Model/RunTypedMysql.vo",
+                "n_quick": 50,
+                "n_thorough": 1500,
+                "model": True
             }
+        ],
+        "properties": [
+            "C19",
+            "C19_mysql"
         ],
         "trusted": [
             "modelled, not verified: the reveal step between the two processors is an arbitrary function of the decoded bytes (C01/C14 are about it); PostgreSQL wire framing of DataRow / RowDescription (pgproto3) around the cell and the type id; NULL cells never reach the processors (handleQueryDataPacket skips them)",
-            "MySQL: Init validation is modelled and replayed (my_init); the MySQL processors and type encoders are covered by the harness oracle only, not by the model",
+            "MySQL (Model/TypedMysql.v, Properties/C19_mysql.v): type encoders, DataDecoderProcessor / DataEncoderProcessor, updateFieldEncodedType, the fixed-length tail of ColumnDescription.Dump, the ONE-column data row of processTextDataRow / processBinaryDataRow / extractData and the rows of one result set sharing the column definition are modelled and replayed (domain c19my through the verif hook decryptor/mysql/export_verif_c19.go); not modelled: FLOAT / DOUBLE re-encoding (strconv float formatting), rows with several columns (positions: C12), packet framing and the error packet sent for an EncodingError (ProxyDatabaseConnection), a nil (0xfb) value inside a binary row",
+            "Gen/TypedMysqlConsts.v regenerated from the compiled /repo packages by `acra-vh typedmy` on every run (MySQL column type ids, TypeConfigurations, specificTypes, BLOB flag, OK / EOF markers)",
             "Gen/TypedConsts.v regenerated from the compiled /repo packages by `acra-vh typed` on every run (registered encoders, type id tables, accepted data_type / response_on_fail words)",
             "strconv.ParseInt/FormatInt, encoding/hex, encoding/base64, unicode/utf8, utils.DecodeEscaped are modelled in Gallina and compared with the Go functions on every run (ops PInt, Esc, Hex, B64, Utf8)"
         ],
         "assumptions": [
             "settings of plain encryption columns (crypto_envelope + reencrypting_to_acrablocks, no tokenization / masking / searchable options)",
-            "case (a) of the matrix: the protected value is a value of the declared type (integer literal of the declared width for int32/int64)"
+            "case (a) of the matrix: the protected value is a value of the declared type (integer literal of the declared width for int32/int64)",
+            "MySQL matrix: the database's column is of a binary type (Type.IsBinaryType: BLOB family, VAR_STRING, STRING, VARCHAR), values are not empty; integer database columns are covered by C19_mysql_int_binary_cell_roundtrip and by the replay"
         ]
     },
     "C20": {
